@@ -283,11 +283,36 @@ func runC18(c *Ctx) {
 						v := env.Term(st.Val)
 						// the map is what the batch lookup returned (handed down as a parameter, if the store sits in a helper)
 						fromBatch := v.Op == "lookup" && strings.Contains(v.Args[0].String(), "GetReverseDnsForIPs")
-						if lk, isLk := st.Val.(*ssa.Lookup); isLk && !fromBatch {
-							if ex, isEx := c.P.DefX(lk.X).(*ssa.Extract); isEx {
-								if call, isCall := ex.Tuple.(*ssa.Call); isCall && call.Common().StaticCallee() != nil && core.FuncName(call.Common().StaticCallee()) == "reversedns.GetReverseDnsForIPs" {
-									fromBatch = true
+						if !fromBatch {
+							// the map read: directly, or inside a one-line accessor of a named map type (names.namesFor(ip))
+							var mp ssa.Value
+							if lk, isLk := st.Val.(*ssa.Lookup); isLk {
+								mp = lk.X
+							} else if acc, isCall := st.Val.(*ssa.Call); isCall && !acc.Common().IsInvoke() {
+								if h := acc.Common().StaticCallee(); h != nil && core.InModule(h) && len(h.Blocks) == 1 {
+									if ret, isRet := h.Blocks[0].Instrs[len(h.Blocks[0].Instrs)-1].(*ssa.Return); isRet && len(ret.Results) == 1 {
+										if lk, isLk := ret.Results[0].(*ssa.Lookup); isLk {
+											for k, q := range h.Params {
+												if lk.X == ssa.Value(q) && k < len(acc.Common().Args) {
+													mp = acc.Common().Args[k]
+												}
+											}
+										}
+									}
 								}
+							}
+							for i := 0; mp != nil && i < 6; i++ {
+								d := c.P.DefX(mp)
+								if ct, isCT := d.(*ssa.ChangeType); isCT {
+									mp = ct.X
+									continue
+								}
+								if ex, isEx := d.(*ssa.Extract); isEx {
+									if call, isCall := ex.Tuple.(*ssa.Call); isCall && call.Common().StaticCallee() != nil && core.FuncName(call.Common().StaticCallee()) == "reversedns.GetReverseDnsForIPs" {
+										fromBatch = true
+									}
+								}
+								break
 							}
 						}
 						// v = lookup(map, conv[string](X.IPAddress)) with X the owner
